@@ -43,7 +43,7 @@ pub fn main(args: &[String]) -> i32 {
         PEAK.store(base, Ordering::Relaxed);
         let res = panic::catch_unwind(|| match parse_patch(&data, strip, true) {
             Ok(p) => (true, p.file_patches.len(), String::new()),
-            Err(e) => (false, 0, format!("{}", e).replace('\n', " ")),
+            Err(e) => (false, 0, format!("{}", e).replace(|c: char| c.is_control(), " ")),
         });
         let peak = PEAK.load(Ordering::Relaxed).saturating_sub(base);
         match res {
